@@ -31,6 +31,15 @@ def fq_models():
     return [n for n in sorted(core.list_models("c")) if core.load_model_info(n).have_Fq]
 
 
+def mixed_seed(base, *others):
+    """Seed for the model's random generator that changes whenever ANY other drawn part of the case changes.
+
+    Hypothesis builds many examples by mutating an earlier one, keeping its first draws: a seed drawn first would
+    be shared by whole families of cases and the model's generator would be sampled at a handful of points."""
+    import zlib
+    return (int(base) + zlib.crc32(repr(others).encode())) % (2 ** 32)
+
+
 def random_pars(info, seed):
     """Parameter set from the model's own random generator, as plain floats."""
     np.random.seed(seed)
@@ -50,8 +59,9 @@ def cases(draw, name):
     src = draw(st.sampled_from(["random", "random", "random", "random", "default"]))
     if src == "random" and info.random is None:
         src = "perturbed"       # three amplitude models ship no random(): perturb their defaults instead
+    rseed = draw(st.integers(0, 10 ** 6))
     if src == "random":
-        pars = random_pars(info, draw(st.integers(0, 10 ** 6)))
+        pars = None       # drawn last, see mixed_seed
     elif src == "default":
         pars = {}
     else:
@@ -60,8 +70,9 @@ def cases(draw, name):
             # lengths whose default is zero (interfacial roughness): absolute values up to a fraction of the particle
             if p.default == 0 and p.units == "Ang" and pname in pars and draw(st.booleans()):
                 pars[pname] = draw(st.sampled_from([0.3, 1.0, 2.5, 6.0, 12.0]))
-    pars.pop("scale", None)
-    pars.pop("background", None)
+    if pars is not None:
+        pars.pop("scale", None)
+        pars.pop("background", None)
     pd = {}
     if draw(st.booleans()):
         pd = draw(S.dispersity(info, "1d", kmax=2, kmin=1, max_mesh=60, allow_cut=False))
@@ -69,9 +80,16 @@ def cases(draw, name):
             if k.endswith("_pd"):
                 pd[k] = min(pd[k], 0.2)
     nmodes = len(info.radius_effective_modes or [])
+    mode = draw(st.integers(1, nmodes)) if nmodes else 0
+    qrel = [S.sig(10 ** e) for e in draw(st.lists(st.floats(-3, math.log10(20.0)), min_size=2, max_size=5))]
+    if pars is None:
+        pars = random_pars(info, mixed_seed(rseed, sorted(pd.items()), mode, qrel))
+        pars.pop("scale", None)
+        pars.pop("background", None)
     return {"model": name, "pars": pars, "pd": pd, "source": src,
-            "mode": draw(st.integers(1, nmodes)) if nmodes else 0,
-            "qrel": [S.sig(10 ** e) for e in draw(st.lists(st.floats(-3, math.log10(20.0)), min_size=2, max_size=5))],
+            # the two entry points are also called the way most callers do, without a cutoff argument
+            "default_cutoff": draw(st.integers(0, 3)) == 0,
+            "mode": mode, "qrel": qrel,
             "scale": S.sig(draw(st.floats(0.01, 10)), 4), "background": draw(st.sampled_from([0.0, 0.001, 1.0]))}
 
 
@@ -108,14 +126,22 @@ def check_fq(case, rec):
     rec.cls("mode:%d" % case["mode"])
     if not (np.all(np.isfinite([shell, form])) and shell > 0 and form > 0):
         rec.fail("volumes:" + name, "V_shell=%r V_form=%r not positive finite for %r" % (shell, form, pars))
-    if case["mode"] and not (np.isfinite(reff) and reff > 0):
-        rec.fail("radius:%s:mode%d" % (name, case["mode"]), "R_eff(%s)=%r" % (mode_name, reff))
-    if case["mode"] and "equivalent" in mode_name and "volume sphere" in mode_name:
-        rec.cls("equivalent-volume-mode")
-        want = (form / (4.0 / 3.0 * math.pi)) ** (1.0 / 3)
-        if not abs(reff - want) <= 1e-9 * want:
-            rec.fail("equivalent-volume:%s:mode%d" % (name, case["mode"]),
-                     "mode %r: R=%r but (3V/4pi)^(1/3)=%r" % (mode_name, reff, want))
+    # every selectable mode at this parameter set (one extra single-q evaluation per mode): the drawn mode
+    # takes part in the remaining clauses, the others only in the radius clauses
+    for m_ in range(1, len(modes) + 1):
+        if m_ == case["mode"]:
+            r_m = reff
+        else:
+            r_m = direct_model.call_Fq(k0, dict(pars, radius_effective_mode=m_), cutoff=0.0)[2]
+        m_name = modes[m_ - 1]
+        if not (np.isfinite(r_m) and r_m > 0):
+            rec.fail("radius:%s:mode%d" % (name, m_), "R_eff(%s)=%r for %r" % (m_name, r_m, pars))
+        if "equivalent" in m_name and "volume sphere" in m_name:
+            rec.cls("equivalent-volume-mode")
+            want = (form / (4.0 / 3.0 * math.pi)) ** (1.0 / 3)
+            if not abs(r_m - want) <= 1e-9 * want:
+                rec.fail("equivalent-volume:%s:mode%d" % (name, m_),
+                         "mode %r: R=%r but (3V/4pi)^(1/3)=%r" % (m_name, r_m, want))
     region = _region(name, info, pars)
     _inequality(rec, name, "mono", F1, F2, region)
     if np.isfinite(F2[0]) and F2[0] > 0:
@@ -123,8 +149,11 @@ def check_fq(case, rec):
         if abs(r0 - 1.0) > 1e-6:
             rec.fail("limit-q0:" + name, "<F>^2/<F^2> = %r at q*size=1e-4 for monodisperse %r" % (r0, pars))
         if spherical:
-            sel = F2 > 1e-10 * F2[0]
-            dev = np.abs(F1[sel] ** 2 - F2[sel]) / F2[0]
+            # relative to the largest <F^2> (the value at the smallest q can itself be a vanishing number:
+            # spherical_sld loses all digits at q*size ~ 1e-4)
+            top = float(np.max(F2))
+            sel = F2 > 1e-10 * top
+            dev = np.abs(F1[sel] ** 2 - F2[sel]) / top
             if np.any(dev > 1e-9):
                 rec.fail("spherical-equality:" + name, "max |<F>^2-<F^2>|/F2(0) = %g at q=%r" % (dev.max(), q[sel][np.argmax(dev)]))
     # I = scale <F^2>/<V_shell> + background with the reported volume
@@ -140,13 +169,16 @@ def check_fq(case, rec):
         pp.update(case["pd"])
         pf = dict(pp)
         pf["radius_effective_mode"] = case["mode"]
-        F1, F2, reff, shell, ratio = direct_model.call_Fq(kernel, pf, cutoff=0.0)
+        kw = {} if case.get("default_cutoff") else {"cutoff": 0.0}
+        if not kw:
+            rec.cls("default-cutoff")
+        F1, F2, reff, shell, ratio = direct_model.call_Fq(kernel, pf, **kw)
         _inequality(rec, name, "pd", F1, F2, region)
         if not (np.isfinite(shell) and shell > 0 and np.isfinite(shell * ratio) and shell * ratio > 0):
             rec.fail("volumes:" + name, "dispersed V_shell=%r V_form=%r" % (shell, shell * ratio))
         if case["mode"] and not (np.isfinite(reff) and reff > 0):
             rec.fail("radius:%s:mode%d" % (name, case["mode"]), "dispersed R_eff=%r" % (reff,))
-        I = direct_model.call_kernel(kernel, dict(pp, scale=case["scale"], background=case["background"]), cutoff=0.0)
+        I = direct_model.call_kernel(kernel, dict(pp, scale=case["scale"], background=case["background"]), **kw)
         want = case["scale"] * F2 / shell + case["background"]
         if not np.allclose(I, want, rtol=1e-12, atol=1e-300, equal_nan=True):
             rec.fail("intensity-identity:pd", "%s: I=%r but scale*F2/V+bkg=%r" % (name, I, want))
